@@ -41,6 +41,9 @@ def mk_value(kind, iv):
     if kind == 'ndarray':
         a = np.ndarray(np.SymDType('int32'), (2,), Seq.of(('md',), 2))
         return a, a.tolist()
+    if kind == 'ndarray1':
+        a = np.ndarray(np.SymDType('int32'), (1,), Seq.of(('md1',), 1))      # ONE element, one dimension: a list
+        return a, a.tolist()
     if kind == 'bytes':
         return b'abc', 'abc'
     if kind == 'bad':
@@ -55,9 +58,32 @@ def key_of(sel):
     return 'zz'        # a key that is never present
 
 
+def jsame(a, b):
+    """JSON equality: 1, 1.0 and true are three different values (Python's == conflates them)"""
+    if isinstance(a, bool) or isinstance(b, bool):
+        return isinstance(a, bool) and isinstance(b, bool) and a == b
+    if isinstance(a, dict) or isinstance(b, dict):
+        if not (isinstance(a, dict) and isinstance(b, dict)) or set(a.keys()) != set(b.keys()):
+            return False
+        for k in a:
+            if not jsame(a[k], b[k]):
+                return False
+        return True
+    if isinstance(a, list) or isinstance(b, list):
+        if not (isinstance(a, list) and isinstance(b, list)) or len(a) != len(b):
+            return False
+        for x, y in zip(a, b):
+            if not jsame(x, y):
+                return False
+        return True
+    if isinstance(a, float) != isinstance(b, float):
+        return False
+    return a == b
+
+
 def check_view(md, model, what):
     d = loader._mapping_dict(md)
-    if d != model:
+    if not jsame(d, model):
         raise Violation(f'{what}: dict(metadata) differs from the model', got=d, want=model)
     if len(md) != len(model):
         raise Violation(f'{what}: len differs')
@@ -75,7 +101,7 @@ def check_view(md, model, what):
         if md.get(k, 7) != model.get(k, 7):
             raise Violation(f'{what}: get with default differs for {k}')
         if k in model:
-            if md[k] != model[k]:
+            if not jsame(md[k], model[k]):
                 raise Violation(f'{what}: [] differs for {k}')
         else:
             try:
@@ -93,7 +119,7 @@ def check_state(w, path, h, cls, model, what):
     if model:
         if node is None:
             raise Violation(f'{what}: metadata.json missing although metadata are non-empty')
-        if not isinstance(node.text, JsonDoc) or node.text.obj != model:
+        if not isinstance(node.text, JsonDoc) or not jsame(node.text.obj, model):
             raise Violation(f'{what}: metadata.json content differs from the model')
     elif node is not None:
         raise Violation(f'{what}: metadata.json exists although there are no metadata',
@@ -256,7 +282,8 @@ def replay_meta(cex, d):
                 'none': (None, None), 'list': ((1, [iv, 'x'], None), [1, [iv, 'x'], None]),
                 'dict': ({'n': {'m': iv}, 'l': (1, 2)}, {'n': {'m': iv}, 'l': [1, 2]}),
                 'npint': (np_.int64(iv), iv), 'npfloat': (np_.float64(1.5), 1.5),
-                'ndarray': (np_.arange(2, dtype='int32'), [0, 1]), 'bytes': (b'abc', 'abc'),
+                'ndarray': (np_.arange(2, dtype='int32'), [0, 1]), 'ndarray1': (np_.array([7], dtype='int32'), [7]),
+                'bytes': (b'abc', 'abc'),
                 'bad': (object(), None)}[kind]
     probs = []
     with rp.scratch() as tmp:
@@ -275,7 +302,7 @@ def replay_meta(cex, d):
                 except Exception as e:
                     probs.append(f'{tag}: {nm} metadata unreadable: {type(e).__name__}')
                     continue
-                if got != model:
+                if json.dumps(got, sort_keys=True) != json.dumps(model, sort_keys=True):
                     probs.append(f'{tag}: {nm} dict(metadata)={got!r} != model {model!r}')
             ex = os.path.exists(p + '/metadata.json')
             if ex != bool(model):
@@ -386,6 +413,15 @@ def obligations(tier):
                  for op in ('pop-default-none', 'pop-default-zero') for op2 in ('pop-default-true', 'popitem')],
               timeout=T, replay='replay_meta', sym='s1, s2 (key selectors), probe',
               bounds="start {'a': None, 'b': True, 'c': 0}; pop(key, default) where the default is the very object that may be stored"),
+           Ob('MD-retype', 'h_meta',
+              splits=[dict(kind=k, start=st, ops=ops, vkinds=vk)
+                      for k in ('array', 'ragged') for st in (1, 2)
+                      for (ops, vk) in [(('setitem',), ('bool',)), (('setitem',), ('float',)), (('update',), ('bool',)),
+                                        (('setitem', 'setitem'), ('int', 'bool')), (('setitem',), ('ndarray1',)),
+                                        (('update-kw',), ('ndarray1',))]],
+              timeout=T, replay='replay_meta', sym='s1, s2, t1, iv, jv, probe',
+              bounds='re-assigning an EXISTING key (stored value jv symbolic) with a value of another JSON type that may compare '
+                     'equal in Python (1 vs true vs 1.0); NumPy arrays holding exactly one element stay lists'),
            Ob('MD-reject', 'h_meta',
               splits=[dict(kind=k, start=st, ops=(op,), vkinds=('bad',), _must=('end', 'rejected'))
                       for k in ('array', 'ragged') for st in (0, 2) for op in ('setitem', 'update')],
